@@ -78,6 +78,9 @@ type cfg struct {
 	coalesce bool
 	// viaCached: the writer goes through rt.CachedState() (which forwards writes to the state)
 	viaCached bool
+	// ctrlGet: the controller also Gets this id through its runtime in every reconcile (a cache miss first, the
+	// resource is created and updated by the script)
+	ctrlGet string
 }
 
 // coalescer forwards aggregated kind watches through a goroutine that may glue a batch to the next one.
@@ -186,6 +189,19 @@ func body(c cfg, x *explore.X) {
 		reads = append(reads, read{"c0", "list", lo, log.Len(), hx.SnapList(l)})
 		lastList, lastStart = hx.SnapList(l), start
 		nRec++
+		if c.ctrlGet != "" {
+			vrt.Yield()
+			lo := log.Len()
+			res, err := r.Get(ctx, hx.IntPtr(c.ctrlGet))
+			s := ""
+			if err == nil {
+				s = hx.Snap(res)
+			} else if !state.IsNotFoundError(err) {
+				return nil //nolint:nilerr // cancelled during shutdown
+			}
+			vrt.TouchKey("c15.reads", true)
+			reads = append(reads, read{"c0", "get " + c.ctrlGet, lo, log.Len(), s})
+		}
 		return nil
 	}
 	if err := rt.RegisterController(p); err != nil {
@@ -631,6 +647,7 @@ func build(tier string) []explore.Scenario {
 		{name: "bootstrap-coalesced/3preexisting", pre: []wop{"create a", "create b", "create c"}, script: []wop{"update b", "destroy c", "create d"}, prologue: false, readers: 0, bounds: []int{0}, coalesce: true},
 		{name: "steady-coalesced/update-create/1reader", pre: []wop{"create a", "create b"}, script: []wop{"update a", "create c"}, prologue: true, readers: 1, nReads: 1, bounds: []int{0}, coalesce: true},
 		{name: "steady/writes-through-cached-state/1reader", pre: []wop{"create a"}, script: []wop{"update a", "update a", "update a"}, prologue: true, readers: 1, nReads: 1, bounds: []int{0}, viaCached: true},
+		{name: "steady/create-update/controller-gets-the-new-resource", pre: []wop{"create a"}, script: []wop{"update a", "create c", "update c"}, prologue: true, readers: 0, bounds: b0, ctrlGet: "c"},
 		{name: "steady/update-create/1reader", pre: []wop{"create a", "create b"}, script: []wop{"update a", "create c"}, prologue: true, readers: 1, nReads: 2, bounds: b0},
 		{name: "steady/update-destroy-unlabel/1reader", pre: []wop{"create a", "create b"}, script: []wop{"unlabel a", "destroy b"}, prologue: true, readers: 1, nReads: 2, bounds: b0},
 		{name: "steady/2readers", pre: []wop{"create a"}, script: []wop{"update a", "update a"}, prologue: true, readers: 2, nReads: 1, bounds: b2r},
